@@ -93,12 +93,14 @@ def run(prog, rep):
                         if t_side and not g.reaches(t_side[0], node, skip_kinds=("exc", "back")) and \
                                 any(m.kind == "raise" and g.dominates(t_side[0], m) for m in g.nodes):
                             guard = br
+                if guard is None and "listexpr" in ev:
+                    guard = _guard_per_alternative(an, f, g, node, ev, obj)
                 inst = "%s|%s" % (f.short, ev.get("how", ev["kind"]))
                 rep.check(guard is not None, "DOM-3", inst, "guarded by `%s`" % want,
                           "`%s` adds %s to the child list without a dominating raising test `%s`: two siblings can get the same name"
                           % (unparse(node.ast).split("\n")[0][:60], obj, want), where(f, node.ast),
                           witness="add an object whose name is already used: lookup by name returns only the first")
-    rep.floor("DOM-3", n_add, 6, "primitive adds to child lists")
+    rep.floor("DOM-3", n_add, 4, "primitive adds to child lists")
     sl = prog.cls("SmartList")
     missing = [m for m in INHERITED_MUTATORS if m not in sl.methods and m in ("insert", "extend", "__iadd__", "__imul__")]
     if missing:
@@ -156,6 +158,31 @@ def run(prog, rep):
                 return "H"
             return None
 
+        def xt(test, br=None):
+            # `v in getattr(p, "sections", ())` (read as `v in (p.sections if hasattr(p, "sections") else ())`) is `hasattr(p, "sections") and v in p.sections`
+            class R(ast.NodeTransformer):
+                def visit_Compare(self, c):
+                    self.generic_visit(c)
+                    if len(c.ops) == 1 and isinstance(c.ops[0], (ast.In, ast.NotIn)) and isinstance(c.comparators[0], ast.Call) \
+                            and isinstance(c.comparators[0].func, ast.Name) and c.comparators[0].func.id == "getattr" and len(c.comparators[0].args) == 3 \
+                            and isinstance(c.comparators[0].args[1], ast.Constant) and isinstance(c.comparators[0].args[2], (ast.Tuple, ast.List)) \
+                            and not c.comparators[0].args[2].elts:
+                        ga = c.comparators[0]
+                        has = ast.Call(func=ast.Name(id="hasattr", ctx=ast.Load()), args=[ga.args[0], ga.args[1]], keywords=[])
+                        inner = ast.Compare(left=c.left, ops=[ast.In()], comparators=[ast.Attribute(value=ga.args[0], attr=ga.args[1].value, ctx=ast.Load())])
+                        both = ast.BoolOp(op=ast.And(), values=[has, inner])
+                        return both if isinstance(c.ops[0], ast.In) else ast.UnaryOp(op=ast.Not(), operand=both)
+                    if len(c.ops) == 1 and isinstance(c.ops[0], (ast.In, ast.NotIn)) and isinstance(c.comparators[0], ast.IfExp):
+                        ie = c.comparators[0]
+                        empty = isinstance(ie.orelse, (ast.Tuple, ast.List)) and not ie.orelse.elts
+                        if empty:
+                            inner = ast.Compare(left=c.left, ops=[ast.In()], comparators=[ie.body])
+                            both = ast.BoolOp(op=ast.And(), values=[ie.test, inner])
+                            return both if isinstance(c.ops[0], ast.In) else ast.UnaryOp(op=ast.Not(), operand=both)
+                    return c
+            import copy as _copy
+            return ast.fix_missing_locations(R().visit(_copy.deepcopy(test)))
+
         for n in stores:
             v = unparse(n.ast.value)
             if v == "%s._id" % me:
@@ -172,7 +199,7 @@ def run(prog, rep):
                       "_name = %s is reachable with an empty value (no fallback to the id on that path)" % v, where(f, n.ast),
                       witness="obj.name = '' leaves an empty name")
             del foreign[:]
-            has_clash = any("C" in labels_in(b.ast.test, classify) for b in g.nodes if b.kind == "branch")
+            has_clash = any("C" in labels_in(xt(b.ast.test), classify) for b in g.nodes if b.kind == "branch")
             if not has_clash:
                 if foreign:
                     rep.fail("DOM-4", "%s: clash test uses the list of its own kind" % f.short,
@@ -183,7 +210,7 @@ def run(prog, rep):
                              where(f, n.ast), witness="rename a child to the name of its sibling")
                 continue
             rep.ok("DOM-4", "%s: clash test uses the list of its own kind" % f.short, "self.parent.%s" % lists[0], where(f, n.ast))
-            guarded = known(g, n, classify, lambda a: not (a["H"] and a["C"]), ["H", "C"])
+            guarded = known(g, n, classify, lambda a: not (a["H"] and a["C"]), ["H", "C"], expand_test=xt)
             rep.check(guarded, "DOM-4", "%s: clash never reaches the store" % f.short, "every path to the store knows not(hasattr and clash)",
                       "a path reaches `_name = %s` although `%s in self.parent.%s` may hold (the clash outcome is not excluded on it)"
                       % (v, val, lists[0]), where(f, n.ast), witness="rename a child to the name of its sibling: accepted")
@@ -427,3 +454,74 @@ def _reach_without(g, a, b, blocked):
 
 def _all_paths_pass(g, start, end, via):
     return not _reach_without(g, start, end, set([via.id]))
+
+
+def _guard_per_alternative(an, f, g, node, ev, obj):
+    """the list of the add is picked by a private helper (one child list per kind of object) and the clash test reads a local that was bound,
+    under the same kind tests, to the list of that kind: for every list the helper can pick there is a raising test `o.name in <local>` whose
+    local is, under the conditions of that pick, exactly that list.  Returns the guarding branch or None."""
+    from .rules_tree import _helper_lists
+    from ..astutil import atoms_of
+    from ..dataflow import reaching_defs, def_value
+    le = ev["listexpr"]
+    alts = None
+    hl = _helper_lists(f, le) if isinstance(le, ast.Call) else None
+    if hl is None and isinstance(le, ast.Name):
+        ds = list(reaching_defs(g, node, le.id))
+        if len(ds) == 1 and ds[0].kind != "entry":
+            v = def_value(ds[0], le.id)
+            hl = _helper_lists(f, v) if isinstance(v, ast.Call) else None
+            le = v if hl else le
+    if not hl:
+        return None
+    # conditions of each pick, in the caller's terms
+    from ..symtext import _is_private_helper_call
+    h = _is_private_helper_call(f, le)
+    hg = an.s.cfg(h)
+    args = an.s.arg_exprs(le, h, f)
+    mapping = dict((pn, norm_text(args[i])) for i, pn in enumerate(h.params + h.kwonly) if i in args)
+    picks = []
+    for rn in [n for n in hg.nodes if n.kind == "return" and isinstance(n.ast.value, ast.Attribute)]:
+        conds = []
+        for test, pol, br in hg.dominating_conditions(rn):
+            if pol in ("true", "false"):
+                for t2, p2 in atoms_of(test, pol == "true", norm_text):
+                    for a0, b0 in mapping.items():
+                        t2 = re.sub(r"\b%s\b" % re.escape(a0), b0, t2)
+                    conds.append((t2, p2))
+        lst = "%s.%s" % (norm_text(le.func.value), {"sections": "_sections", "properties": "_props", "props": "_props"}.get(rn.ast.value.attr, rn.ast.value.attr))
+        picks.append((lst, conds))
+    if not picks:
+        return None
+    found = None
+    for lst, conds in picks:
+        ok = None
+        for test, pol, br in g.dominating_conditions(node):
+            if pol != "false":
+                continue
+            for cmp in [x for x in ast.walk(test) if isinstance(x, ast.Compare) and len(x.ops) == 1 and isinstance(x.ops[0], ast.In)]:
+                if norm_text(an.alias_expander(f).expand(cmp.left, br)) != "%s._name" % obj or not isinstance(cmp.comparators[0], ast.Name):
+                    continue
+                cands = []
+                for d in reaching_defs(g, br, cmp.comparators[0].id):
+                    if d.kind == "entry":
+                        cands = None
+                        break
+                    dconds = []
+                    for t3, p3, _ in g.dominating_conditions(d):
+                        if p3 in ("true", "false"):
+                            dconds += atoms_of(t3, p3 == "true", norm_text)
+                    if any((t4, not p4) in dconds for t4, p4 in conds):
+                        continue           # this binding belongs to another kind of object
+                    cands.append(def_value(d, cmp.comparators[0].id))
+                if cands and len(cands) == 1 and cands[0] is not None:
+                    vt = norm_text(cands[0])
+                    vt = re.sub(r"\.sections$", "._sections", re.sub(r"\.(properties|props)$", "._props", vt))
+                    t_side = br.out("true")
+                    if vt == lst and t_side and not g.reaches(t_side[0], node, skip_kinds=("exc", "back")) and \
+                            any(m.kind == "raise" and g.dominates(t_side[0], m) for m in g.nodes):
+                        ok = br
+        if ok is None:
+            return None
+        found = ok
+    return found
